@@ -549,6 +549,10 @@ func (ex *Exec) visitInstr(fr *frame, instr ssa.Instruction) bool {
 				ex.oblige("nil", "index through nil array pointer", fr, instr.Pos(), b.False)
 			}
 			a := ex.asArray(fr, *x)
+			if c := ex.tableLookup(fr, instr, idx, a); c != nil {
+				fr.env[instr] = c
+				break
+			}
 			i := ex.boundedIndex(fr, instr.Pos(), idx, len(a))
 			fr.env[instr] = &a[i]
 		default:
@@ -609,6 +613,72 @@ func (ex *Exec) visitInstr(fr *frame, instr ssa.Instruction) bool {
 }
 
 // boundedIndex emits the bounds obligation and case-splits a symbolic index.
+// tableLookup reads a table of constants (asciiSpace[c], a lookup table of a library) at a symbolic index without
+// forking on the index: when the address is only ever loaded from, it may point at a fresh cell that holds the
+// selected element as one term. nil = not applicable.
+func (ex *Exec) tableLookup(fr *frame, instr *ssa.IndexAddr, idx *smt.Term, a []value) *value {
+	if _, isConst := idx.ConstInt(); isConst || len(a) <= 16 || len(a) > 1024 {
+		return nil
+	}
+	refs := instr.Referrers()
+	if refs == nil || len(*refs) == 0 {
+		return nil
+	}
+	for _, r := range *refs {
+		if u, ok := r.(*ssa.UnOp); !ok || u.Op != token.MUL {
+			return nil
+		}
+	}
+	groups := map[string][]int{}
+	rep := map[string]*smt.Term{}
+	var order []string
+	for i, e := range a {
+		t, ok := e.(*smt.Term)
+		if !ok {
+			return nil
+		}
+		var key string
+		if c, ok := t.ConstInt(); ok {
+			key = "i" + c.String()
+		} else if cb, ok := t.ConstBool(); ok {
+			key = fmt.Sprint("b", cb)
+		} else {
+			return nil
+		}
+		if _, seen := groups[key]; !seen {
+			order = append(order, key)
+			rep[key] = t
+		}
+		groups[key] = append(groups[key], i)
+	}
+	if len(order) > 64 {
+		return nil
+	}
+	b := ex.b
+	ex.oblige("bounds", "index out of range", fr, instr.Pos(), b.And(b.Le(b.I64(0), idx), b.Lt(idx, b.I64(int64(len(a))))))
+	// the most frequent value is the default of the chain
+	def := order[0]
+	for _, k := range order {
+		if len(groups[k]) > len(groups[def]) {
+			def = k
+		}
+	}
+	acc := rep[def]
+	for _, k := range order {
+		if k == def {
+			continue
+		}
+		var any []*smt.Term
+		for _, i := range groups[k] {
+			any = append(any, b.Eq(idx, b.I64(int64(i))))
+		}
+		acc = b.Ite(b.Or(any...), rep[k], acc)
+	}
+	cell := new(value)
+	*cell = acc
+	return cell
+}
+
 func (ex *Exec) boundedIndex(fr *frame, pos token.Pos, idx *smt.Term, n int) int {
 	b := ex.b
 	ex.oblige("bounds", "index out of range", fr, pos, b.And(b.Le(b.I64(0), idx), b.Lt(idx, b.I64(int64(n)))))
